@@ -320,6 +320,16 @@ def check_roundtrip(stg, fr, ext, tmp, tag):
         probs.append(f'source_name {g.source_name!r} vs {fr.source_name!r}')
     if getattr(fr, '_expected_source_name', fr.source_name) != fr.source_name:
         probs.append(f'the frame carries source name {fr.source_name!r} after its history, expected {fr._expected_source_name!r}')
+    # frames built from one in-memory Waterfall object (more than once: a cadence of views, a retry) are the file's frame
+    try:
+        wobj = Waterfall(fn)
+        for nth in ('first', 'second', 'third'):
+            gw = stg.Frame(waterfall=wobj)
+            if gw.shape != g.shape or not np.array_equal(gw.data, g.data) or not np.allclose(gw.fs, g.fs, rtol=0, atol=tol):
+                probs.append(f'the {nth} frame built from one Waterfall object of the file differs from the frame loaded from the file')
+                break
+    except Exception as e:
+        probs.append(f"Frame(waterfall=<Waterfall object>) raised {type(e).__name__}: {e}")
     freqs = wf.container.populate_freqs() * 1e6
     dat = wf.data[:, 0, :]
     order = np.argsort(freqs)
